@@ -95,6 +95,8 @@ Definition vec_write (b : list N) (dst : option N) (data : list N) : gres (list 
   end.
 Definition ptr_add (p : option N) (n : N) : option N :=
   match p with Some o => Some (o + n) | None => None end.
+(** a pointer as an integer: the offset into the buffer it points into; null is 0 *)
+Definition ptr_val (p : option N) : N := match p with Some o => o | None => 0 end.
 Definition ptr_eqb (p q : option N) : bool :=
   match p, q with
   | Some a, Some b => a =? b
